@@ -197,6 +197,16 @@ func genArgs(r *Rand) []KV {
 	if r.Chance(0.2) {
 		out = append(out, KV{"b", vBool(r.Chance(0.5))})
 	}
+	if r.Chance(0.25) {
+		// a string with characters of 1, 2, 3 and 4 UTF-8 bytes (slices count characters)
+		alphabet := []rune("ab\u00e9\u00fc\u65e5\u672c\U0001d11ez.")
+		n := r.Range(0, 9)
+		rs := make([]rune, n)
+		for i := range rs {
+			rs[i] = alphabet[r.Intn(len(alphabet))]
+		}
+		out = append(out, KV{"u", vStr(string(rs))})
+	}
 	if r.Chance(0.2) {
 		// a list of records, some of which lack the field x (optional selectors under all)
 		n := r.Range(1, 4)
@@ -353,6 +363,26 @@ func genStmt(r *Rand, a []KV, want bool, depth int, top bool) Stmt {
 		return Pick(r, []Stmt{{Op: "==", Sel: sel, Val: ptr(vFloat(f + 1))}, {Op: ">", Sel: sel, Val: ptr(vFloat(f))}, {Op: "<=", Sel: sel, Val: ptr(vFloat(f - 0.25))},
 			{Op: "==", Sel: sel, Val: ptr(vInt(int64(f)))}})
 	case "str":
+		if nr := len([]rune(v.S)); r.Chance(0.45) || (kv.Key == "u" && r.Chance(0.6)) {
+			// a slice of the string, by characters: prefix, suffix (negative start), window,
+			// bounds beyond the end (clamped)
+			a, b := r.Range(0, nr), r.Range(0, nr)
+			if a > b {
+				a, b = b, a
+			}
+			form := Pick(r, []string{
+				fmt.Sprintf("[%d:%d]", a, b), fmt.Sprintf("[%d:]", a), fmt.Sprintf("[:%d]", b),
+				fmt.Sprintf("[-%d:]", nr-a), fmt.Sprintf("[%d:-%d]", a, nr-b+1), fmt.Sprintf("[-%d:-%d]", nr-a+1, nr-b+1),
+				fmt.Sprintf("[%d:%d]", a, nr+3), fmt.Sprintf("[-%d:]", nr+2),
+			})
+			got, ok := resolveSel(sel+form, Val{K: "map", M: []KV{kv}})
+			if ok && got.K == "str" {
+				if want {
+					return Stmt{Op: "==", Sel: sel + form, Val: ptr(got)}
+				}
+				return Stmt{Op: "==", Sel: sel + form, Val: ptr(vStr(got.S + Pick(r, []string{"q", "\u00e9", "."})))}
+			}
+		}
 		if r.Chance(0.5) && isLowerAlpha(v.S) {
 			return Stmt{Op: "like", Sel: sel, Pat: likePattern(r, v.S, want)}
 		}
@@ -414,6 +444,28 @@ func genStmt(r *Rand, a []KV, want bool, depth int, top bool) Stmt {
 			}
 		}
 		e := v.L[r.Intn(len(v.L))].I
+		if r.Chance(0.35) {
+			n := len(v.L)
+			i := r.Intn(n)
+			a, b := r.Range(0, n), r.Range(0, n)
+			if a > b {
+				a, b = b, a
+			}
+			form := Pick(r, []string{fmt.Sprintf("[%d]", i), fmt.Sprintf("[-%d]", n-i), fmt.Sprintf("[%d:%d]", a, b), fmt.Sprintf("[-%d:]", n-a), fmt.Sprintf("[:%d]", b), fmt.Sprintf("[%d:%d]", a, n+2)})
+			got, ok := resolveSel(sel+form, Val{K: "map", M: []KV{kv}})
+			if ok && got.K == "int" {
+				if want {
+					return Pick(r, []Stmt{{Op: "==", Sel: sel + form, Val: ptr(got)}, {Op: "<=", Sel: sel + form, Val: ptr(got)}, {Op: ">", Sel: sel + form, Val: ptr(vInt(got.I - 1))}})
+				}
+				return Pick(r, []Stmt{{Op: "==", Sel: sel + form, Val: ptr(vInt(got.I + 1))}, {Op: "<", Sel: sel + form, Val: ptr(got)}, {Op: ">", Sel: sel + form, Val: ptr(got)}})
+			}
+			if ok && got.K == "list" {
+				if want {
+					return Stmt{Op: "==", Sel: sel + form, Val: ptr(got)}
+				}
+				return Stmt{Op: "==", Sel: sel + form, Val: ptr(Val{K: "list", L: append(append([]Val{}, got.L...), vInt(77))})}
+			}
+		}
 		if want {
 			return Pick(r, []Stmt{
 				{Op: "all", Sel: sel, Kids: []Stmt{{Op: ">=", Sel: ".", Val: ptr(vInt(min))}}},
@@ -788,6 +840,9 @@ func genWorld(r *Rand, cfg GenCfg) Plan {
 		ck := &CheckSpec{Inv: c.inv.Label, Variants: vlabels}
 		if faulty && r.Chance(0.2) && len(c.inv.Prf) > 0 {
 			ck.LFaults = []LoaderFault{{Call: r.Intn(len(c.inv.Prf)), Kind: Pick(r, []string{"notfound", "error"})}}
+		}
+		if r.Chance(0.3) {
+			ck.Prov = Pick(r, []string{"inv-built", "dlg-built", "all-built"})
 		}
 		ph := 0.25
 		if focus == "C03" {
